@@ -913,6 +913,7 @@ theorem compact_marker_written (st : Svc) (hc : st.eng.closed = false) (hro : st
   have hb : wouldBlock false st.eng = false := by simp [wouldBlock, hw, hr]
   simp only [hb, Bool.false_eq_true, ↓reduceIte]
   have hcl : (beginEng false st.eng).closed = false := by rw [(beginEng_fields false st.eng).2.1]; exact hc
-  simp [Tx.put, Tx.commit, bufSet, bufOps, hcl, (unlock_store _ _).1, (beginEng_fields false st.eng).1]
+  have hfit : batchEntryFits (false, compactMarker, compactForce) = true := by decide
+  simp [Tx.put, Tx.commit, bufSet, bufOps, hcl, hfit, (unlock_store _ _).1, (beginEng_fields false st.eng).1]
 
 end Kevo.Proofs.ServiceApi
